@@ -4,7 +4,7 @@ From RV Require Import Prelude.
 From Tensor Require Import Overlap.
 From LayoutOps Require Import ArrayModel LayoutOps ModelC09 Array_proofs Denote_proofs
   SliceRange_proofs Gather_proofs Perm_proofs Bcast_proofs Reshape_proofs Copy_proofs
-  Defined_proofs.
+  Defined_proofs Clip_proofs.
 From Coq Require Import Permutation.
 Open Scope N_scope.
 
@@ -16,10 +16,11 @@ Lemma lift_ok st r st' : lift st r = Ok st' -> exists v', r = Ok v' /\ st' = mkM
 Proof. unfold lift. destruct r; [|discriminate]. intros [= <-]. eauto. Qed.
 
 Theorem op_matches_reference o st st' t :
-  proved_op o = true -> mdenote st = Some t -> apply_op false o st = Ok st' ->
+  mdenote st = Some t -> apply_op false o st = Ok st' ->
   mdenote st' = ref_apply o t (result_shape st').
 Proof.
-  intros Hp Ht H. unfold mdenote in *. destruct o; cbn [apply_op ref_apply] in *; try discriminate.
+  intros Ht H. destruct o; try exact (clip_dim_denotes _ _ _ _ _ _ Ht H).
+  all: unfold mdenote in *; cbn [apply_op ref_apply] in *.
   - (* slice *)
     destruct (zero_step items); [discriminate|].
     apply lift_ok in H as (v' & Hv & ->). cbn [m_store m_view].
@@ -63,15 +64,16 @@ Proof.
 Qed.
 
 (* an error (or panic) is reported only where the reference operation is undefined, or --
-   for the view-only reshape -- where the documented contiguity precondition fails.
-   slice_copy's error direction is not covered here. *)
+   for the view-only reshape -- where the documented contiguity precondition fails. *)
 
 Theorem op_error_means_undefined o st e t :
-  error_proved_op o = true -> dims_small (v_dims (m_view st)) ->
+  dims_small (v_dims (m_view st)) ->
   mdenote st = Some t -> apply_op false o st = Err e ->
   contract_error o e = true \/ ref_apply o t (t_shape t) = None.
 Proof.
-  intros Hp Hsm Ht H. unfold mdenote in *. destruct o; cbn [apply_op ref_apply] in *; try discriminate.
+  intros Hsm Ht H. destruct o.
+  17:{ destruct (clip_dim_error _ _ _ _ _ _ Ht H) as [->|Hn]; [now left|now right]. }
+  all: unfold mdenote in *; cbn [apply_op ref_apply] in *; try discriminate.
   - right. destruct (zero_step items); [reflexivity|].
     unfold lift in H. destruct (slice false (m_view st) items) eqn:E; [discriminate|].
     eapply slice_error; eassumption.
@@ -94,6 +96,10 @@ Proof.
     eapply remove_axis_error; eassumption.
   - right. unfold lift in H. destruct (split _ _ _ _) eqn:E; [discriminate|].
     now rewrite (split_error _ _ _ _ _ _ _ Ht E).
+  - (* slice_copy *)
+    right. destruct (zero_step items); [reflexivity|].
+    destruct (slice_copy false (m_store st) (m_view st) items) eqn:E; [discriminate|].
+    eapply slice_copy_error; eassumption.
   - (* reshaped panics only on a size mismatch *)
     right. destruct (reshaped_for_view false (m_view st) shape) eqn:E; [discriminate|].
     destruct (prodN shape =? prod_sizes (v_dims (m_view st))) eqn:Ep.
@@ -128,12 +134,13 @@ Qed.
 (* a successful operation yields a state that denotes a tensor (so, with
    op_matches_reference, the reference operation is defined and equal) *)
 Theorem op_result_defined o st st' t :
-  proved_op o = true -> mdenote st = Some t -> apply_op false o st = Ok st' ->
+  mdenote st = Some t -> apply_op false o st = Ok st' ->
   exists t', mdenote st' = Some t'.
 Proof.
-  intros Hp Ht H.
-  pose proof (op_matches_reference o st st' t Hp Ht H) as Hm.
-  unfold mdenote in *. destruct o; cbn [apply_op ref_apply proved_op] in *; try discriminate.
+  intros Ht H.
+  pose proof (op_matches_reference o st st' t Ht H) as Hm.
+  destruct o; try exact (clip_dim_defined _ _ _ _ _ _ Ht H).
+  all: unfold mdenote in *; cbn [apply_op ref_apply] in *.
   - destruct (zero_step items); [discriminate|].
     apply lift_ok in H as (v' & Hv & ->). rewrite Hm. exact (slice_defined _ _ _ _ _ Ht Hv).
   - apply lift_ok in H as (v' & Hv & ->). rewrite Hm. exact (slice_axis_defined _ _ _ _ _ _ _ Ht Hv).
@@ -198,11 +205,11 @@ Qed.
 
 (* the two directions together: Ok => the reference is defined and the result denotes it *)
 Corollary op_correct o st st' t :
-  proved_op o = true -> mdenote st = Some t -> apply_op false o st = Ok st' ->
+  mdenote st = Some t -> apply_op false o st = Ok st' ->
   exists t', ref_apply o t (result_shape st') = Some t' /\ mdenote st' = Some t'.
 Proof.
-  intros Hp Ht H. destruct (op_result_defined o st st' t Hp Ht H) as [t' Ht'].
-  exists t'. split; [|exact Ht']. now rewrite <- (op_matches_reference o st st' t Hp Ht H).
+  intros Ht H. destruct (op_result_defined o st st' t Ht H) as [t' Ht'].
+  exists t'. split; [|exact Ht']. now rewrite <- (op_matches_reference o st st' t Ht H).
 Qed.
 
 (* ---------------------------------------------------------------- chains *)
@@ -210,17 +217,17 @@ Qed.
 (* composition: a chain of operations on an arbitrary source view denotes the chain of
    reference operations applied to the source tensor *)
 Theorem chain_matches_reference ops st t states :
-  forallb proved_op ops = true -> mdenote st = Some t ->
+  mdenote st = Some t ->
   run_chain false ops st = Ok states ->
   exists t', ref_chain ops (map result_shape states) t = Some t' /\ mdenote (last states st) = Some t'.
 Proof.
-  revert st t states. induction ops as [|o r IH]; intros st t states Hp Ht H.
+  revert st t states. induction ops as [|o r IH]; intros st t states Ht H.
   - cbn [run_chain] in H. injection H as <-. exists t. split; [reflexivity|exact Ht].
-  - cbn [forallb] in Hp. apply andb_prop in Hp as [Ho Hr]. cbn [run_chain] in H.
+  - cbn [run_chain] in H.
     destruct (apply_op false o st) as [st1|e] eqn:E1; [|discriminate].
     destruct (run_chain false r st1) as [l|e] eqn:E2; [|discriminate]. injection H as <-.
-    destruct (op_correct o st st1 t Ho Ht E1) as (t1 & Hr1 & Hd1).
-    destruct (IH st1 t1 l Hr Hd1 E2) as (t' & Hc & Hl).
+    destruct (op_correct o st st1 t Ht E1) as (t1 & Hr1 & Hd1).
+    destruct (IH st1 t1 l Hd1 E2) as (t' & Hc & Hl).
     exists t'. cbn [map ref_chain]. rewrite Hr1. split; [exact Hc|].
     destruct l as [|m l']; [exact Hl|].
     assert (Hlast : forall (l0 : list mstate) x d d', last (x :: l0) d = last (x :: l0) d').
@@ -232,11 +239,11 @@ Qed.
 (* never lossy: every tensor denoted along the way has exactly as many elements as its shape,
    and the same count as the reference result (they are equal) *)
 Corollary never_lossy o st st' t :
-  proved_op o = true -> mdenote st = Some t -> apply_op false o st = Ok st' ->
+  mdenote st = Some t -> apply_op false o st = Ok st' ->
   exists t', mdenote st' = Some t' /\ ref_apply o t (result_shape st') = Some t'
              /\ lenN (t_elems t') = prodN (t_shape t') /\ t_shape t' = result_shape st'.
 Proof.
-  intros Hp Ht H. destruct (op_correct o st st' t Hp Ht H) as (t' & Hr & Hd).
+  intros Ht H. destruct (op_correct o st st' t Ht H) as (t' & Hr & Hd).
   exists t'. repeat split; try assumption.
   - exact (denote_wf _ _ _ Hd).
   - exact (denote_shape _ _ _ Hd).
